@@ -188,6 +188,9 @@ class Scripted(_random.Random):
 def scripted_random(values):
     from btc_hd_wallet import bip39
     stub = Scripted(values)
+    if not hasattr(bip39, "random"):
+        yield stub          # nothing to substitute: the stub is simply never consulted
+        return
     old = bip39.random
     bip39.random = stub
     try:
